@@ -756,4 +756,60 @@ theorem drawRow_spec (maxW : UInt16) : ∀ (l : List Cell) (col : UInt16),
       congr 1
       omega
 
+/-! ### HardwrapScanner -/
+
+/-- the cells that are not a "\n" grapheme -/
+def notNl (l : List Cell) : List Cell := l.filter (fun c => !c.nl)
+
+theorem hardLoop_spec : ∀ (cells line : List Cell),
+    (hardLoop line cells).2.length ≤ cells.length ∧
+    notNl (hardLoop line cells).1 ++ notNl (hardLoop line cells).2 = notNl line ++ notNl cells ∧
+    (cells ≠ [] → (hardLoop line cells).2.length < cells.length) := by
+  intro cells
+  induction cells with
+  | nil => intro line; simp [hardLoop]
+  | cons c cs ih =>
+    intro line
+    unfold hardLoop
+    by_cases hn : c.nl = true
+    · simp only [hn, ↓reduceIte]
+      by_cases he : cs.isEmpty = true
+      · simp only [he, ↓reduceIte]
+        have : cs = [] := List.isEmpty_iff.mp he
+        subst this
+        simp [notNl, hn]
+      · simp only [he]
+        simp [notNl, hn]
+    · have hn' : c.nl = false := by simpa using hn
+      simp only [hn', Bool.false_eq_true, ↓reduceIte]
+      have := ih (line ++ [c])
+      refine ⟨by simp only [List.length_cons]; omega, ?_, fun _ => by simp only [List.length_cons]; omega⟩
+      rw [this.2.1]
+      simp [notNl, hn']
+
+theorem hardAll_ok : ∀ (fuel : Nat) (cells : List Cell), cells.length < fuel →
+    ∃ ls, hardAll fuel cells = .ok ls ∧ notNl ls.flatten = notNl cells := by
+  intro fuel
+  induction fuel with
+  | zero => intro cells h; omega
+  | succ n ih =>
+    intro cells h
+    unfold hardAll hardScan
+    by_cases he : cells.isEmpty = true
+    · have : cells = [] := List.isEmpty_iff.mp he
+      subst this
+      exact ⟨[], by simp, rfl⟩
+    · have hne : cells ≠ [] := by intro h0; subst h0; simp at he
+      have he' : cells.isEmpty = false := by simpa using he
+      simp only [he', Bool.false_eq_true, ↓reduceIte]
+      have hs := hardLoop_spec cells []
+      obtain ⟨ls, hls, hc⟩ := ih (hardLoop [] cells).2 (by have := hs.2.2 hne; omega)
+      simp only [hls]
+      refine ⟨_, rfl, ?_⟩
+      rw [List.flatten_cons]
+      have : notNl ((hardLoop [] cells).1 ++ ls.flatten) = notNl (hardLoop [] cells).1 ++ notNl ls.flatten := by
+        simp [notNl]
+      rw [this, hc, hs.2.1]
+      simp [notNl]
+
 end VaxisModel.Lemmas.Wrap
